@@ -25,23 +25,25 @@ theorem loopEnter_res (s : State) (hinv : Inv s) (g : FId) (v : Val) (sig : Nat)
         split
         · exact Res.trans hm0 (contNoCheck_res _ _ _ _ _ hp0 hs0 (fun cur hc => by rw [hg] at hc; cases hc; exact hnr'))
         · split
-          · exact Res.trans hm0 (Res.stop _ hp0 _)
-          · rename_i d hd
-            split
+          · exact ⟨Mono.of_fibers_eq rfl, hinv.1.of_fibers_eq rfl, fun h => by cases h⟩
+          · split
             · exact Res.trans hm0 (Res.stop _ hp0 _)
-            · rename_i fd hfd
-              have hm1 : Mono ({ s with halt := none, stack := [] } : State) (({ s with halt := none, stack := [] } : State).setFiber d { fd with pending := some sig }) :=
-                Mono.setFiber _ hfd (Fwd.refl _) rfl
-              refine Res.trans (hm0.trans hm1) (contNoCheck_res _ _ _ _ _ (hp0.setFiber d _ ?_) (hs0.setFiber_notin d _ (by simp)) ?_)
-              · intro sg h
-                have : sig = sg := by simpa using h
-                exact this ▸ hsig
-              · intro cur hc
-                by_cases hgd : g = d
-                · subst hgd
-                  rw [fiber?_setFiber_eq _ hfd] at hc; cases hc
-                  rw [hg] at hfd; cases hfd; exact hnr'
-                · rw [fiber?_setFiber_ne _ _ _ _ hgd, hg] at hc; cases hc; exact hnr'
+            · rename_i d hd
+              split
+              · exact Res.trans hm0 (Res.stop _ hp0 _)
+              · rename_i fd hfd
+                have hm1 : Mono ({ s with halt := none, stack := [] } : State) (({ s with halt := none, stack := [] } : State).setFiber d { fd with pending := some sig }) :=
+                  Mono.setFiber _ hfd (Fwd.refl _) rfl
+                refine Res.trans (hm0.trans hm1) (contNoCheck_res _ _ _ _ _ (hp0.setFiber d _ ?_) (hs0.setFiber_notin d _ (by simp)) ?_)
+                · intro sg h
+                  have : sig = sg := by simpa using h
+                  exact this ▸ hsig
+                · intro cur hc
+                  by_cases hgd : g = d
+                  · subst hgd
+                    rw [fiber?_setFiber_eq _ hfd] at hc; cases hc
+                    rw [hg] at hfd; cases hfd; exact hnr'
+                  · rw [fiber?_setFiber_ne _ _ _ _ hgd, hg] at hc; cases hc; exact hnr'
   · exact ⟨Mono.refl s, hinv⟩
 
 section
@@ -88,23 +90,25 @@ theorem loopEnter_G (hm : AccFin m) (s : State) (hinv : Inv s) (hne : p ≠ f) (
         · exact contNoCheck_G hm _ _ _ _ _ hp0 hs0 ho0 hne hb0.1 hb0.2.1 (fun cur hc => by rw [hg] at hc; cases hc; exact hnr') (Or.inl ⟨hoff, hgf⟩)
         · rename_i hso
           split
-          · exact Or.inl (stuck_stop _ _ rfl)
-          · rename_i d hd
-            split
+          · exact Or.inr (Or.inr (show Blk m p f cont _ s.stack from hstk ▸ hb.of_fibers_eq (fun _ => rfl)))
+          · split
             · exact Or.inl (stuck_stop _ _ rfl)
-            · rename_i fd hfd
-              have hdp : p ≠ d := fun h => hC hso (h ▸ hd)
-              obtain ⟨k1, k2, k3, k4⟩ := pre_setFiber (cont := cont) (m := m) { fd with pending := some sig } hfd hdp rfl rfl rfl (Or.inl rfl) hb0.1 hb0.2.1 ho0
-              refine contNoCheck_G hm _ _ _ _ _ (hp0.setFiber d _ ?_) (hs0.setFiber_notin d _ (by simp)) k3 hne k1 k2 ?_ (Or.inl ⟨k4 _ hoff, hgf⟩)
-              · intro sg h
-                have : sig = sg := by simpa using h
-                exact this ▸ hsig
-              · intro cur hc
-                by_cases hgd : g = d
-                · subst hgd
-                  rw [fiber?_setFiber_eq _ hfd] at hc; cases hc
-                  rw [hg] at hfd; cases hfd; exact hnr'
-                · rw [fiber?_setFiber_ne _ _ _ _ hgd, hg] at hc; cases hc; exact hnr'
+            · rename_i d hd
+              split
+              · exact Or.inl (stuck_stop _ _ rfl)
+              · rename_i fd hfd
+                have hdp : p ≠ d := fun h => hC hso (h ▸ hd)
+                obtain ⟨k1, k2, k3, k4⟩ := pre_setFiber (cont := cont) (m := m) { fd with pending := some sig } hfd hdp rfl rfl rfl (Or.inl rfl) hb0.1 hb0.2.1 ho0
+                refine contNoCheck_G hm _ _ _ _ _ (hp0.setFiber d _ ?_) (hs0.setFiber_notin d _ (by simp)) k3 hne k1 k2 ?_ (Or.inl ⟨k4 _ hoff, hgf⟩)
+                · intro sg h
+                  have : sig = sg := by simpa using h
+                  exact this ▸ hsig
+                · intro cur hc
+                  by_cases hgd : g = d
+                  · subst hgd
+                    rw [fiber?_setFiber_eq _ hfd] at hc; cases hc
+                    rw [hg] at hfd; cases hfd; exact hnr'
+                  · rw [fiber?_setFiber_ne _ _ _ _ hgd, hg] at hc; cases hc; exact hnr'
   · exact Or.inr (Or.inr hb)
 
 /-- privacy of the body fiber with respect to one transition: `Priv` for an instruction; for a task dispatch: nobody but `p`
